@@ -51,6 +51,31 @@ def failStopMonP (P : Program) : ActMon (TaskDef × Bool) where
 def failStopMonAll (P : Program) (tr : List Label) : Bool :=
   (actIds tr).all fun a => ((failStopMonP P).run (failStopMonP P).init (evsOf a tr)).isSome
 
+/-! ### the status rule on the raw trace (verdict `C03s`) -/
+
+/-- what `Run` returned must not be a bare exit status (`main` would exit 1 instead of 201 /
+the command's status) nor a doubly wrapped `TaskRunError` (201 even with `--exit-code`) -/
+def statusResOk : Res → Bool
+  | .exit _ => false
+  | .run (.run _) => false
+  | _ => true
+
+/-- a dependency is never called directly: the error its group reports is never a `TaskRunError` -/
+def depsDoneBare : Ev → Bool
+  | .depsDone (.run _) => false
+  | _ => true
+
+/-- the verdict the driver prints as `C03s`: evaluated on the logged events and the error the
+real `Run` returned, independently of `replay` (soundness: `Props.C03.C03_statusMon_sound`) -/
+def statusMon (tr : List Label) (result : Res) : Bool :=
+  statusResOk result && tr.all (fun l => depsDoneBare l.ev)
+
+example : statusMon [] (.run (.exit 7)) = true := by decide
+example : statusMon [] (.exit 7) = false := by decide
+example : statusMon [] (.run (.run (.exit 7))) = false := by decide
+example : statusMon [⟨1, .depsDone (.run (.exit 7))⟩] (.run (.exit 7)) = false := by decide
+example : statusMon [⟨1, .depsDone (.exit 7)⟩, ⟨2, .depsDone .ok⟩] (.typed 205) = true := by decide
+
 -- executable on concrete event lists
 example : ((failStopMon { cmds := [.shell 1 false false, .shell 0 false false] }).run false
     [.cmdStart 0 none false, .cmdEnd 0 (.exit 1), .cmdStart 1 none false]).isSome = false := by decide
